@@ -1286,3 +1286,7 @@ mut("filter_index_offset_truncated", ["C14", "C13"], "GRD-8", patch="filter_inde
 mut("wal_reuse_when_eof_or_consumed", ["C12", "C16", "C02"], "GRD-12", patch="wal_reuse_when_eof_or_consumed.diff")
 mut("gc_after_scheduled_flag_cleared", ["C17", "C09"], "ORD-10", patch="gc_after_scheduled_flag_cleared.diff",
     note="Drop sees the flag cleared and releases LOCK while the old instance is still unlinking files")
+mut("version_get_error_breaks_inner_loop_only", ["C15", "C08", "C01"], "VERD-1", patch="version_get_error_breaks_inner_loop_only.diff",
+    note="a damaged newer table is skipped and an older value from a deeper level is returned")
+mut("recovery_flush_with_base_version", ["C16", "C02"], "GRD-22", patch="recovery_flush_with_base_version.diff",
+    note="a table written during WAL replay is placed below level 0 although earlier replayed WALs' tables are still pending")
